@@ -45,7 +45,7 @@ def run(prop, tier, seed, replay=None):
                     if quick and n == 3 and random.Random(str(seq) + str(seed)).random() > 0.5:
                         continue
                     cfgs.append({"seq": list(seq)})
-            cfgs.append({"periods": [100, 500, 1000, 2000, 2100, 3000, 4000, 60000]})
+            cfgs.append({"periods": [100, 150, 500, 1000, 1990, 2000, 2100, 2350, 3000, 4000, 60000]})
             cfgs.append({"slow": True})
         shards = shard([json.dumps(x) for x in cfgs], NCPU * 2)
         files = []
@@ -77,7 +77,7 @@ def run(prop, tier, seed, replay=None):
                 seen.add(key)
                 viol += 1
                 o = json.loads(tl[b["line"] - 1])
-                cfgx = {"slow": True} if o["mode"] == "slow" else {"seq": o["pre"] + [o["op"]]} if o["mode"] == "seq" else ({"periods": [100, 500, 1000, 2000, 2100, 3000, 4000, 60000]} if o["mode"] == "periods"
+                cfgx = {"slow": True} if o["mode"] == "slow" else {"seq": o["pre"] + [o["op"]]} if o["mode"] == "seq" else ({"periods": [100, 150, 500, 1000, 1990, 2000, 2100, 2350, 3000, 4000, 60000]} if o["mode"] == "periods"
                                                                                    else {"kind": o["kind"], "init": o["init"], "sched": o["sched"], "unsafe": o["unsafe"]})
                 path = write_replay(prop, "hb_%d" % viol, {"property": prop, "config": cfgx, "defects": b["defects"],
                                     "observed": {k: o[k] for k in ("live", "running", "rate", "window", "panic", "ctrok", "notified", "periodok", "maxagems", "after")}})
@@ -91,10 +91,14 @@ def run(prop, tier, seed, replay=None):
             raise Inconclusive("no heartbeat schedule realised")
         cov = {"states": states, "transitions": states, "traces_validated_against_impl": len(cfgs), "evaluations": lines, "distinct_nontrivial": realised,
                "rule": "every interleaving of two (thorough: sampled three) concurrent start/stop calls of the code-shaped Heartbeat model x initially running or not, forced through gates; "
-                       "sequential histories over {start, stop, remove entity, add entity} of length 2..3(4); period rule for 8 timeouts; distinct = executions realised on the code",
+                       "sequential histories over {start, stop, remove entity, add entity} of length 2..3(4); period rule for 11 timeouts (three of them no multiple of the 0.1 s resolution of the announced value); distinct = executions realised on the code",
                "samples": [{k: sample[k] for k in ("mode", "kind", "init", "sched", "op", "pre", "live", "running", "rate")}],
                "schedules_unrealisable": lines - realised, "attack_schedules_realised": unsafe_r, "bad": nbad,
                "checker_cmd": "tlc Heartbeat.tla (Atomic: INVARIANT Safe; split: enumeration); tlc HeartbeatTrace.tla"}
+        import suite
+        sr = suite.execute(prop, sc)   # the repository's own tests under the state tracer (message counters / heartbeat refreshes)
+        viol += sr["viol"]
+        cov["suite_trace"] = sr["cov"]
         write_evidence(prop, tier, seed, "model_checking", cov, ASSUME, time.time() - t0, viol)
         log("[%s] %s: %d executions (%d lines), %d realised, %d bad, %.1fs" % (prop, tier, len(cfgs), lines, realised, nbad, time.time() - t0))
         return 1 if viol else 0
